@@ -628,7 +628,8 @@ class ParameterConfig:
       value = value.value
     try:
       self._assert_feasible(value)
-    except (TypeError, ValueError):
+    except (TypeError, ValueError, OverflowError):
+      # OverflowError: an infinite value offered to an INTEGER parameter.
       return False
     return True
 
